@@ -857,7 +857,7 @@ class TaggedOperation(Operation):
         return protocols.unitary(self.sub_operation, NotImplemented)
 
     def _commutes_(self, other: Any, *, atol: float = 1e-8) -> bool | NotImplementedType | None:
-        return protocols.commutes(self.sub_operation, other, atol=atol)
+        return protocols.commutes(self.sub_operation, other, atol=atol, default=None)
 
     @cached_method
     def _has_mixture_(self) -> bool:
